@@ -20,7 +20,7 @@ import sys
 VERIF = os.path.dirname(os.path.dirname(os.path.abspath(__file__)))
 REPO = "/repo"
 PY = "/venv/bin/python"
-SCRATCH = "/tmp/seedwt"
+SCRATCH = "/tmp/seedwt"   # replaced per seed in main(): several evaluations may run in parallel
 
 
 def sh(cmd, cwd=None, env=None, timeout=3600):
@@ -30,8 +30,11 @@ def sh(cmd, cwd=None, env=None, timeout=3600):
 
 
 def main():
+    global SCRATCH
     pid, d = sys.argv[1], sys.argv[2].rstrip("/")
     k = os.path.basename(d)
+    SCRATCH = f"/tmp/seedwt-{pid}-{k}"
+    on_repo = "--on-repo" in sys.argv      # run the checks against /repo itself (serial use only)
     patch = os.path.join(d, "patch.diff")
     demo = os.path.join(d, "demo.py")
     meta = json.load(open(os.path.join(d, "meta.json"))) if os.path.exists(os.path.join(d, "meta.json")) else {}
@@ -67,28 +70,38 @@ def main():
     res["tests_tail"] = outt.strip()[-300:]
     res["tests_pass"] = (" failed" not in outt) and ("error" not in outt.lower().replace("1 error", "")) \
         and "passed" in outt
-    sh(f"git -C {REPO} worktree remove --force {SCRATCH}")
-    shutil.rmtree(SCRATCH, ignore_errors=True)
+    if on_repo:
+        sh(f"git -C {REPO} worktree remove --force {SCRATCH}")
+        shutil.rmtree(SCRATCH, ignore_errors=True)
     confirmed = res["demo_without_change"] == 0 and res["demo_with_change"] not in (0,) and res["tests_pass"]
     res["confirmed"] = confirmed
     # ---- 2. run the check against it ---------------------------------------------------
     checks = [pid] + [a for a in sys.argv[3:] if a.startswith("C")]
-    rc, out = sh(f"git -C {REPO} status --porcelain --untracked-files=no")
-    if out.strip():
-        print("REPO NOT CLEAN, aborting:", out)
-        return 2
-    rc, out = sh(f"git -C {REPO} apply {patch}")
+    cenv = dict(os.environ, VERIF_EVIDENCE_DIR=f"/tmp/seed_evidence/{pid}-{k}")
+    if on_repo:
+        rc, out = sh(f"git -C {REPO} status --porcelain --untracked-files=no")
+        if out.strip():
+            print("REPO NOT CLEAN, aborting:", out)
+            return 2
+        rc, out = sh(f"git -C {REPO} apply {patch}")
+    else:
+        # the scratch worktree still has the change applied: point the harness at it
+        # (same code path as /repo: harness/common.py REPO = $VERIF_REPO or /repo)
+        cenv["VERIF_REPO"] = SCRATCH
     try:
         res["checks"] = {}
         for c in checks:
-            rcc, outc = sh(f"./check {c}", cwd=VERIF, timeout=3000,
-                           env=dict(os.environ, VERIF_EVIDENCE_DIR="/tmp/seed_evidence"))
+            rcc, outc = sh(f"./check {c}", cwd=VERIF, timeout=3000, env=cenv)
             viol = [l for l in outc.split("\n") if l.startswith("VIOLATION")][:4] + \
                 [l for l in outc.split("\n") if l.startswith("  ->")][:5]
             res["checks"][c] = {"exit": rcc, "lines": viol,
                                 "summary": [l for l in outc.split("\n") if l.startswith(f"[{c}]")][-1:]}
     finally:
-        sh(f"git -C {REPO} checkout -- .")
+        if on_repo:
+            sh(f"git -C {REPO} checkout -- .")
+        else:
+            sh(f"git -C {REPO} worktree remove --force {SCRATCH}")
+            shutil.rmtree(SCRATCH, ignore_errors=True)
     res["detected"] = any(v["exit"] == 1 for v in res["checks"].values())
     res["detected_with_replay"] = any(
         v["exit"] == 1 and any("no-failing-input-found" not in l for l in v["lines"] if l.startswith("VIOLATION"))
